@@ -31,3 +31,9 @@ func c17cut(s *c17state, ev []byte, k int) {
 	}
 	s.out.Count("console_partial_event_writes", 1)
 }
+
+// c17consumers hands one input to every consumer that decodes binary events (always, not a sample).
+func c17consumers(s *c17state, in []byte) {
+	s.guard("ConsoleWriter.Write", in, false, func() error { c17console.Write(in); return nil })
+	s.guard("journald.Write", in, false, func() error { c17journald.Write(in); return nil })
+}
